@@ -212,6 +212,7 @@ type CallResult struct {
 	Res      atp.ExecutionResult
 	FromStep int // signals received from the step
 	At       int // scheduler step at return
+	StartAt  int // scheduler step at which Execute was called
 }
 
 // SessionObs is everything observed during a session run.
@@ -314,6 +315,7 @@ func RunSession(s *rt.Sim, plan *SessionPlan, obs *SessionObs) {
 							res.FromStep++
 						}
 					})
+					results[i].StartAt = s.StepCount()
 					r := client.Execute(schema.Input{RunID: call.RunID, ID: call.Step, InputData: call.Input}, toStep, fromStep)
 					results[i].Returned++
 					results[i].Res = r
@@ -323,6 +325,7 @@ func RunSession(s *rt.Sim, plan *SessionPlan, obs *SessionObs) {
 					sideWG.Wait()
 					rt.Yield(siteHarness)
 				} else {
+					results[i].StartAt = s.StepCount()
 					r := client.Execute(schema.Input{RunID: call.RunID, ID: call.Step, InputData: call.Input}, nil, nil)
 					results[i].Returned++
 					results[i].Res = r
@@ -617,11 +620,16 @@ func JudgeSession(plan *SessionPlan, obs *SessionObs, out rt.Outcome) []Violatio
 			if serverPanicked || plan.CloseEarly {
 				continue // peer unhealthy or Close raced: results may legitimately be errors
 			}
+			// a call may be refused as a duplicate only while another call with the same run ID is in flight: their
+			// [call, return] intervals on the scheduler's step axis must intersect
 			dupRun := false
-			for _, cs := range plan.Callers {
-				for _, c2 := range cs {
-					if c2.RunID == call.RunID && c2.Nonce != call.Nonce {
-						dupRun = true
+			for cj, cs := range plan.Callers {
+				for j, c2 := range cs {
+					if c2.RunID == call.RunID && c2.Nonce != call.Nonce && cj < len(obs.Results) && j < len(obs.Results[cj]) {
+						o := obs.Results[cj][j]
+						if o.Returned > 0 && o.StartAt <= got.At && o.At >= got.StartAt {
+							dupRun = true
+						}
 					}
 				}
 			}
